@@ -3,4 +3,4 @@ Require Extraction.
 Require Import ExtrOcamlBasic.
 From Atlas Require Import Base.Bytes Diff.Schema Sqlite.RowsModel.
 Extraction Language OCaml.
-Extraction "model.ml" ApplyChanges PlanChanges exec_all schema_apply schema_apply_f str_eqb.
+Extraction "model.ml" ApplyChanges PlanChanges exec_all schema_apply schema_apply_f table_options str_eqb.
